@@ -159,11 +159,17 @@ pub struct Focus {
     pub re_register: bool,
     /// replaces the tape-decoded max_tx_size (second pass of C07: the same history under a limit just below its size)
     pub max_tx_size_override: Option<u32>,
+    /// a script-capable operation (Plutus input, certificate, withdrawal, mint, vote, proposal) is followed by 0-3 more
+    /// of its kind, so that several items of one redeemer purpose meet in one transaction (C10)
+    pub bursts: bool,
+    /// datums may arrive decoded from a non-canonical encoding (entries 4..7 of the datum pool). Off for C03: decoded
+    /// values replay their original bytes by design, and C03 speaks about values built through the typed API
+    pub alt_datums: bool,
 }
 
 impl Focus {
     pub fn general() -> Focus {
-        Focus { scripts: 70, certs: 60, assets: 90, many_assets: false, governance: 40, boundaries: true, max_ops: 14, selection: 70, re_register: false, max_tx_size_override: None }
+        Focus { scripts: 70, certs: 60, assets: 90, many_assets: false, governance: 40, boundaries: true, max_ops: 14, selection: 70, re_register: false, max_tx_size_override: None, bursts: false, alt_datums: true }
     }
 }
 
@@ -227,6 +233,35 @@ impl World {
             PlutusData::new_constr_plutus_data(&ConstrPlutusData::new(&bn(1), &l)),
             PlutusData::new_list(&l),
         ];
+        // entries 4..7: the same four values decoded from another legal encoding (non-minimal integer, definite-length
+        // byte string over 64 bytes, definite-length lists): equal as values, different bytes and datum hashes
+        let mut datums = datums;
+        for i in 0..4 {
+            let c = datums[i].to_bytes();
+            let alt: Vec<u8> = match i {
+                0 => vec![0x18, 0x00],
+                1 => {
+                    let mut v = vec![0x58, 70];
+                    v.extend_from_slice(&pool_bytes(5, 70, 72));
+                    v
+                }
+                2 => {
+                    let mut v = vec![c[0], c[1], 0x82];
+                    v.extend_from_slice(&c[3..c.len() - 1]);
+                    v
+                }
+                _ => {
+                    let mut v = vec![0x82];
+                    v.extend_from_slice(&c[1..c.len() - 1]);
+                    v
+                }
+            };
+            let d = match PlutusData::from_bytes(alt.clone()) {
+                Ok(d) if d.to_bytes() == alt && d == datums[i] => d,
+                _ => datums[i].clone(),
+            };
+            datums.push(d);
+        }
         World { params, keys, byron: byron_pool(), natives, plutus, datums, utxos: BTreeMap::new(), cost_models: Costmdls::new(), cost_model_values: BTreeMap::new(), counter: 0 }
     }
 
@@ -357,6 +392,8 @@ struct Run<'a> {
     panics: Vec<String>,
     items: Vec<ScriptItem>,
     extra_datums: Vec<Vec<u8>>,
+    /// reference inputs whose script size the transaction builder was told through add_script_reference_input
+    sized_refs: Vec<TransactionInput>,
     marker: u64,
     plutus_used: bool,
     focus: Focus,
@@ -400,9 +437,17 @@ impl<'a> Run<'a> {
 
     fn redeemer(&mut self, tag: &RedeemerTag) -> (Redeemer, u64) {
         let m = self.next_marker();
-        let mem = [100u64, 0, 14_000_000, 1 << 33][self.t.choose(4)];
-        let steps = [200u64, 0, 10_000_000_000, 1 << 34][self.t.choose(4)];
-        (Redeemer::new(tag, &bn(0), &PlutusData::new_integer(&BigInt::from(m)), &ExUnits::new(&bn(mem), &bn(steps))), m)
+        let mc = self.t.choose(4);
+        let sc = self.t.choose(4);
+        let mem = [100u64, 0, 14_000_000, 1 << 33][mc];
+        let steps = [200u64, 0, 10_000_000_000, 1 << 34][sc];
+        // the tag and index of the caller's Redeemer object are placeholders: the builder decides both from the item the
+        // redeemer is attached to. Half of the objects carry the purpose's own tag, the others any tag; the index is
+        // arbitrary (derived from values already drawn, so that earlier tapes keep their meaning)
+        let k = (m as usize) + mc * 2 + sc;
+        let tags = [RedeemerTag::new_spend(), RedeemerTag::new_mint(), RedeemerTag::new_cert(), RedeemerTag::new_reward(), RedeemerTag::new_vote(), RedeemerTag::new_voting_proposal()];
+        let carried = if k % 2 == 0 { tag.clone() } else { tags[(k / 2) % 6].clone() };
+        (Redeemer::new(&carried, &bn((k % 7) as u64), &PlutusData::new_integer(&BigInt::from(m)), &ExUnits::new(&bn(mem), &bn(steps))), m)
     }
 
     fn signer_hint(&mut self) -> Vec<usize> {
@@ -627,6 +672,8 @@ impl<'a> Run<'a> {
         let coin = 2_000_000 + self.t.range_u64(0, 30_000_000);
         let assets = self.pick_assets(false);
         let d = self.t.choose(4);
+        // every other time the value arrives in its other encoding (decided by a value already drawn)
+        let d = if self.focus.alt_datums && coin % 2 == 1 { d + 4 } else { d };
         // how the datum travels: hash in the UTxO + datum in the witness set / by reference; or inline in the UTxO
         let mode = self.t.choose(3);
         let (dh, inl) = if mode == 2 { (None, Some(d)) } else { (Some(d), None) };
@@ -1044,18 +1091,40 @@ impl<'a> Run<'a> {
             }
             1 => {
                 let k = self.t.choose(6);
-                let u = self.w.new_utxo(Lock::Key(k), 2_000_000, BTreeMap::new(), 0, None, Some(self.t.choose(4)), None);
-                self.tb.add_reference_input(&u.input);
-                self.ops.push("reference_input".into());
+                let dsel = self.t.choose(4);
+                // (decided by values already drawn) the same reference input registered twice, once plainly and once with
+                // the size of the script it carries, in either order: the declared size must survive
+                let existing: Vec<TransactionInput> = self.sized_refs.clone();
+                match (k + dsel) % 4 {
+                    3 if !existing.is_empty() => {
+                        let inp = &existing[k % existing.len()];
+                        self.tb.add_reference_input(inp);
+                        self.ops.push("reference_input(plain, after its script size was declared)".into());
+                    }
+                    2 => {
+                        let u = self.w.new_utxo(Lock::Key(k), 5_000_000, BTreeMap::new(), 0, None, None, Some((true, dsel)));
+                        let size = self.w.script_ref_size((true, dsel));
+                        self.tb.add_reference_input(&u.input);
+                        self.tb.add_script_reference_input(&u.input, size);
+                        self.sized_refs.push(u.input.clone());
+                        self.ops.push(format!("reference_input(plain, then script_reference_input(p{},{}))", dsel, size));
+                    }
+                    _ => {
+                        let u = self.w.new_utxo(Lock::Key(k), 2_000_000, BTreeMap::new(), 0, None, Some(dsel), None);
+                        self.tb.add_reference_input(&u.input);
+                        self.ops.push("reference_input".into());
+                    }
+                }
             }
             2 => {
                 let idx = self.t.choose(4);
                 let (inp, size) = self.ref_utxo_for(true, idx);
                 self.tb.add_script_reference_input(&inp, size);
+                self.sized_refs.push(inp.clone());
                 self.ops.push(format!("script_reference_input(p{},{})", idx, size));
             }
             3 => {
-                let d = self.t.choose(4);
+                let d = self.t.choose(4) + if self.focus.alt_datums && self.ops.len() % 2 == 1 { 4 } else { 0 };
                 let dat = self.w.datums[d].clone();
                 self.tb.add_extra_witness_datum(&dat);
                 self.extra_datums.push(dat.to_bytes());
@@ -1164,10 +1233,12 @@ pub fn run(tape: &[u8], focus: Focus) -> Option<Outcome> {
     let balancing = pt.choose(8);
     let strategy_k = pt.choose(4);
     let fund = pt.chance(230);
-    let fund_extra = pt.choose(10).min(7 + 0) % 8;
+    // classes 0..7 as documented at the funding step; 8 and 9 put the leftover at a CBOR width border of the change coin
+    let fund_extra = pt.choose(10);
     let skip_hash = pt.chance(12);
     let collateral_route = pt.choose(5);
     let cm_variant = pt.choose(3);
+    let bursts = focus.bursts && pt.bool();
     let tb = TransactionBuilder::new(&cfg);
     let mut r = Run {
         t: Tape::new(content),
@@ -1186,6 +1257,7 @@ pub fn run(tape: &[u8], focus: Focus) -> Option<Outcome> {
         panics: Vec::new(),
         items: Vec::new(),
         extra_datums: Vec::new(),
+        sized_refs: Vec::new(),
         marker: 0,
         plutus_used: false,
         focus,
@@ -1218,19 +1290,22 @@ pub fn run(tape: &[u8], focus: Focus) -> Option<Outcome> {
             }
             x -= w;
         }
-        match kind {
-            0 => r.op_key_input(),
-            1 => r.op_byron_input(),
-            2 => r.op_native_input(),
-            3 => r.op_plutus_input(),
-            4 => r.op_output(),
-            5 => r.op_cert(),
-            6 => r.op_withdrawal(),
-            7 => r.op_mint(),
-            8 => r.op_vote(),
-            9 => r.op_proposal(),
-            11 => r.op_re_add_input(),
-            _ => r.op_misc(),
+        let reps = if bursts && matches!(kind, 3 | 5 | 6 | 7 | 8 | 9) { 1 + [0usize, 0, 1, 2, 3][r.t.choose(5)] } else { 1 };
+        for _ in 0..reps {
+            match kind {
+                0 => r.op_key_input(),
+                1 => r.op_byron_input(),
+                2 => r.op_native_input(),
+                3 => r.op_plutus_input(),
+                4 => r.op_output(),
+                5 => r.op_cert(),
+                6 => r.op_withdrawal(),
+                7 => r.op_mint(),
+                8 => r.op_vote(),
+                9 => r.op_proposal(),
+                11 => r.op_re_add_input(),
+                _ => r.op_misc(),
+            }
         }
     }
     // deposits / refunds of the certificates, from the scenario's own table (for funding only)
@@ -1339,7 +1414,12 @@ pub fn run(tape: &[u8], focus: Focus) -> Option<Outcome> {
                 // just around "is a change output viable": min-ADA of the change output +- a little
                 6 => (asset_min + delta).saturating_sub(4_000),
                 // just around "is a separate pure-ADA change output viable" (prefer_pure_change)
-                _ => (asset_min + pure_min + delta).saturating_sub(2_000),
+                7 => (asset_min + pure_min + delta).saturating_sub(2_000),
+                // the change coin lands within a few thousand lovelace of 2^32: its encoding is one width while the fee
+                // is being estimated and may be the other in the end
+                8 => ((1u128 << 32) + delta).saturating_sub(8_000),
+                // ... or of 2^16 / 2^8 (only viable as change under a small coins-per-byte)
+                _ => ([1u128 << 16, 1 << 8, 1 << 16, 1 << 32][r.t.choose(4)] + delta / 8).saturating_sub(1_000),
             };
             let coin = (need - have + extra).min(u64::MAX as u128 / 4) as u64;
             let k = r.t.choose(6);
